@@ -29,6 +29,7 @@ RULE = (
     "plaintexts / SIDs; nonce mode (offline root key) and public-key mode (DC returning DH / ECDH public keys); interleaved unprotect calls; shared and "
     "fresh caches; sync and async; 8 threads; forked children. Values (CEK, GCM nonce, (CEK,nonce) pair, key_info, ciphertext) are compared within the "
     "shard exactly and across shards by digest. distinct = calls whose three values were all extracted; non-trivial = all"
+    " Also: batches of 2-8 concurrent async protects on one cache that must go to the DC; 30 000 / 400 000 call sequences; constant-bit monitor with an exemption for counter constructions."
 )
 ASSUMPTIONS = [
     "honest randomness collides with probability < 1e-18 over the run (96-bit nonces, 256-bit keys), so any collision is a violation",
